@@ -35,7 +35,7 @@ prop('C03', 'other',
      driver='bounded.sched', driver_args=['--prop', 'C03'], rule=SCHED_RULE, assumptions=[FLOATS])
 prop('C12', 'other',
      'PROVED: in run_for the ghost emit log only grows by the current global_time, right after _send_updates (which ends with the step phase), with strictly increasing times for emit_step 1 and non-decreasing times otherwise. BOUNDED: one configuration record first, a row after construction and after every batch, rows equal to the projection of the hierarchy on the emit flags (Store.emit_data and the emitter are outside the translated subset).',
-     driver='bounded.sched', driver_args=['--prop', 'C12'], rule=SCHED_RULE)
+     drivers=[('bounded.sched', ['--prop', 'C12']), ('bounded.c12', [])], rule=SCHED_RULE)
 
 prop('C14', 'exploration',
      'BOUNDED ONLY: the substance of serialization lives in orjson and pint (external, no contract within reach can '
